@@ -1,5 +1,5 @@
 """C17 — wire data types survive a JSON round trip in both directions."""
-from vlib.cfg import Cfg, DefUse, Slice
+from vlib.cfg import Cfg, DefUse, Slice, ref_chain
 from vlib.cond import switch_cond, variant_edge
 from vlib.facts import AnchorMissing
 
@@ -106,6 +106,32 @@ def r3(cx, rule="C17.R3"):
         for c in [x for x in ser.unit.bodies if x.promoted is None and x.parent == ser.path]:
             if c.calls("=serialize_entry"): in_closure = c
     other = [t for t in ser.calls() if not t.callee.indirect and t.callee.name.startswith("serialize_") and t.callee.name not in ("serialize_map", "serialize_entry")]
+    # the length announced to the serializer is the number of entries that follow (a compact writer trusts it: with a wrong hint
+    # serde_json's text output is malformed although to_value() still looks right)
+    for i, t in enumerate(sm):
+        hw = []
+        if len(t.args) >= 2:
+            lens = []; unknown = False
+            for k, o in Slice(ser, du).origins(t.args[1]):
+                if k == "call" and o.callee.name == "len": lens.append(o)
+                elif k == "agg" and isinstance(o.agg, dict) and o.agg.get("variant") == "None": pass
+                elif k == "const" and (o.cint() == 0): lens.append(None)
+                else: unknown = True
+            if unknown: hw.append("the length hint is not the set's len() (nor None)")
+            for o in lens:
+                if o is None:
+                    # Some(0) is only right where nothing is written
+                    if se and any(x.bb in cfg.reach(t.target) for x in se if t.target is not None): hw.append("entries are written behind a hint of 0")
+                    continue
+                p_ = (o.callee.resolved or o.callee.path)
+                whole = ("HashSet" in p_ or "hash::set" in p_ or "hash_set::HashSet" in p_ or p_.endswith("StringHashSet::len") or "HashMap" in p_)
+                if not whole:
+                    # an iterator's remaining length: right only while nothing has been taken from it
+                    it = o.args[0] if o.args else None
+                    taken = [x for x in ser.calls("=next", "=nth", "=next_back", "=by_ref", "=take", "=skip") if it is not None and it.place is not None and x.args and x.args[0].place is not None
+                             and set(ref_chain(du, x.args[0].place.l)) & set(ref_chain(du, it.place.l)) and o.bb in cfg.reach(x.target if x.target is not None else x.bb)]
+                    if taken: hw.append("the length hint is what is left of an iterator after %s() took an element (%s): one entry more is written than announced" % (taken[0].callee.name, taken[0].sp))
+        cx.check(not hw, rule, "varlink:StringHashSet:serialize_map#%d:length-hint" % i, "%s %s" % (t.sp, ser.path), "; ".join(hw), note_ok="hint = number of elements")
     why = []
     def writes_empty_map(tyname):
         for b in ser.unit.bodies:
